@@ -6,6 +6,7 @@ A = "src/arithmetic.rs"
 O = "src/machine/arithmetic_ops.rs"
 Q = ("quick", "thorough")
 T = ("thorough",)
+D = ("deep",)     # unregistered: float division over all finite doubles did not finish within an hour
 
 
 def HA(name, cost, desc, bounds, tiers=Q, **kw):
@@ -21,17 +22,17 @@ HARNESSES = [
        "float_overflow", "every f64 bit pattern"),
     HA("c02_add_f", 20, "add_f = IEEE + with overflow check", "all pairs of finite doubles"),
     HA("c02_mul_f", 900, "mul_f = IEEE * with overflow check", "all pairs of finite doubles",
-       tiers=T, timeout=3600),
+       tiers=T, timeout=7200),
     HA("c02_div_f", 900, "div_f: +-0.0 divisor -> zero_divisor, else IEEE / with overflow check",
-       "all pairs of finite doubles", tiers=T, timeout=3600),
+       "all pairs of finite doubles", tiers=D, timeout=3600),
     HA("c02_div_f_zero_guard", 30, "div_f reports zero_divisor exactly for divisors +-0.0 "
        "(subnormals are not zero)", "all pairs of finite doubles"),
     HA("c02_promote_fixnum", 20, "fixnum -> double promotion is `as f64`, never an error",
        "full 56-bit"),
     HA("c02_number_div_fix_fix", 900, "Fixnum / Fixnum = double quotient of promoted operands",
-       "|x|,|y| < 2^12", tiers=T, timeout=3600),
+       "|x|,|y| < 2^12", tiers=D, timeout=3600),
     HA("c02_number_div_mixed", 400, "Fixnum / Float and Float / Fixnum", "56-bit x finite double",
-       tiers=T, timeout=3000),
+       tiers=D, timeout=3000),
     HA("c02_rnd_i_float", 60, "rnd_i on floats: floor inequality; |x| >= 2^55 never a fixnum "
        "(F2 site)", "every finite double"),
     HA("c02_rnd_i_fixnum_identity", 10, "rnd_i on a fixnum is the identity", "full 56-bit"),
@@ -76,8 +77,10 @@ ASSUME = [
     "IBig::try_from(f64) and IBig::from(i64) are recording models (S4); error constructors S5",
     "bignum and rational operands are outside (P18)",
 ]
-BOUNDS = ("every finite double for classification, + * /, rounding functions; 56-bit fixnums for "
-          "promotion; Fixnum/Fixnum division |x|,|y| < 2^12; unwind 10")
+BOUNDS = ("every finite double for classification, + (quick), * (thorough, ~50 min), the zero-divisor / "
+          "overflow guards of / and the rounding functions; 56-bit fixnums for promotion; the value of the "
+          "quotient (IEEE / over all finite doubles, Fixnum/Fixnum) did not finish within an hour and is in no "
+          "registered tier; unwind 10")
 OUTSIDE = ("the value returned by libm functions; dashu conversions; rational/bignum -> double; "
            "printing of -0.0; nested expressions")
 
